@@ -30,7 +30,9 @@
 #define VM_MALLOC_CLASSES X(struct pfx_table, 1) X(struct spki_table, 1)
 #define VM_REALLOC_CLASSES                                                                          \
 	X(struct pdu_ipv4, 2) X(struct pdu_ipv4, 4) X(struct pdu_ipv4, 6) X(struct pdu_ipv6, 2)      \
-	X(struct pdu_ipv6, 4) X(struct pdu_router_key, 2) X(struct pdu_router_key, 4)
+	X(struct pdu_ipv6, 4) X(struct pdu_router_key, 2) X(struct pdu_router_key, 4)               \
+	X(struct pdu_ipv4, 1) X(struct pdu_ipv4, 3) X(struct pdu_ipv6, 1) X(struct pdu_ipv6, 3)      \
+	X(struct pdu_router_key, 1) X(struct pdu_router_key, 3)
 #define VM_DIRECT
 #include "alloc_model.h"
 
@@ -504,6 +506,11 @@ void harness(void)
 	sc_pos = 0;
 	tm_live_pfx_writes = tm_live_spki_writes = 0;
 
+#ifdef ALLOC_FAIL
+	/* C18: the k-th allocation request of the exchange fails (k symbolic, 0 = none): PDU stores, shadow tables */
+	vm_requests = 0;
+	vm_fail_at = ND(uint8_t, "alloc.fail_at");
+#endif
 	/* ================= the real code ================= */
 	int rc = rtr_sync(&S);
 	/* ================================================= */
@@ -520,6 +527,10 @@ void harness(void)
 	VASSERT(S.request_session_id || S.last_update != 0, "sync: SInv preserved: an established session implies a data timestamp");
 	VASSERT(S.version <= S0.version, "C13: version never increases");
 	VASSERT(vm_live == 0, "C18 sync: every block obtained during the exchange is released again");
+#ifdef ASSERT_C18
+	if (vm_fail_at && vm_requests >= vm_fail_at)
+		VASSERT(rc == RTR_ERROR, "C18 sync: an exchange in which an allocation failed reports an error");
+#endif
 
 	/* ---- locate the structure of the script as the real code must have seen it ---- */
 	/* first non-Serial-Notify PDU = opener; then payload until EOD */
@@ -637,7 +648,7 @@ void harness(void)
 		}
 #endif
 	} else {
-#ifdef ASSERT_C03
+#if defined(ASSERT_C03) || defined(ASSERT_C18)
 		/* failure: either untouched and same next query, or everything of this cache gone and Reset Query next */
 		bool untouched1 = post_w1 == pre_w1 && post_w2 == pre_w2 && post_wk == pre_wk &&
 				  S.serial_number == S0.serial_number && S.request_session_id == S0.request_session_id &&
